@@ -167,14 +167,14 @@ def shares_of(enc, dv, n):
 # generation
 # --------------------------------------------------------------------------------------------
 FACTORIES = ["bvmat", "family_bvmat", "l1_numpy", "wgebv_numpy", "wgebv_gmat", "random_object", "mogs_gmat",
-             "gebv_gmat", "cmat", "l2_gmat", "uc", "ohv", "opv", "embv", "wgebvmat", "embvmat"]
+             "gebv_gmat", "cmat", "l2_gmat", "uc", "ohv", "opv", "gb", "embv", "wgebvmat", "embvmat"]
 
 
 COMBOS = [("bvmat", "EBV"), ("bvmat", "GEBV"), ("family_bvmat", "FAMILY"), ("l1_numpy", "L1"),
           ("wgebv_numpy", "WGEBV"), ("wgebv_numpy", "GWGEBV"), ("wgebv_gmat", "WGEBV"), ("wgebv_gmat", "GWGEBV"),
           ("random_object", "RANDOM"), ("mogs_gmat", "PAFD"), ("mogs_gmat", "PAU"), ("mogs_gmat", "MOGS"),
           ("gebv_gmat", "GEBV"), ("cmat", "OCS"), ("cmat", "MGR"), ("cmat", "MEH"), ("l2_gmat", "L2"), ("uc", "UC"),
-          ("ohv", "OHV"), ("opv", "OPV"), ("embv", "EMBV"), ("wgebvmat", "WGEBVMAT"), ("embvmat", "EMBVMAT")]
+          ("ohv", "OHV"), ("opv", "OPV"), ("gb", "GB"), ("embv", "EMBV"), ("wgebvmat", "WGEBVMAT"), ("embvmat", "EMBVMAT")]
 
 
 def gen_case(rng, factory=None, crit=None):
@@ -229,7 +229,7 @@ def _gen_case(rng, factory=None):
                     fafreq=[[canon.enc(rng.choice(fchoices)) for _ in range(t)] for _ in range(p)],
                     alpha=canon.enc(Fraction(1, 2) if crit == "WGEBV" else rng.choice([Fraction(0), Fraction(1, 2), Fraction(1)])))
         case["decn"] = decide(rng, case["enc"], n)
-    elif fac in ("wgebv_gmat", "gebv_gmat", "mogs_gmat", "cmat", "l2_gmat", "uc", "ohv", "opv", "embv", "wgebvmat",
+    elif fac in ("wgebv_gmat", "gebv_gmat", "mogs_gmat", "cmat", "l2_gmat", "uc", "ohv", "opv", "gb", "embv", "wgebvmat",
                  "embvmat"):
         pop = gen_pop(rng)
         n = len(pop["geno"][0])
@@ -274,14 +274,28 @@ def _gen_case(rng, factory=None):
             pop["phased"] = True
             t = len(pop["u"][0])
             uniq = rng.random() < 0.5
+            # designs: two-way with a stub variance factory (equal or unequal genome contributions), three-way with
+            # a stub (1/2, 1/4, 1/4) and three-way with the real DenseThreeWayDHAdditiveGeneticVarianceMatrixFactory
+            design = rng.choice(["stub2", "stub2", "stub3", "real3", "real3"])
+            npar = 2 if design == "stub2" else 3
+            if design == "stub2":
+                epgc = [Fraction(1, 2), Fraction(1, 2)] if rng.random() < 0.5 else [Fraction(3, 4), Fraction(1, 4)]
+            else:
+                epgc = [Fraction(1, 2), Fraction(1, 4), Fraction(1, 4)] if rng.random() < 0.6 else \
+                    [Fraction(1, 4), Fraction(1, 4), Fraction(1, 2)]
+
+            def tensor(depth):
+                if depth == 0:       # asymmetric variance tensor: perfect squares / 16, one per trait
+                    return [canon.enc(Fraction(rng.randint(0, 9) ** 2, 16)) for _ in range(t)]
+                return [tensor(depth - 1) for _ in range(n)]
             case.update(crit="UC", enc=rng.choice(encs), unique_parents=uniq, via_xmap=rng.random() < 0.4,
                         upper_percentile=canon.enc(rng.choice([Fraction(1, 10), Fraction(1, 4), Fraction(1, 2)])),
-                        epgc=[canon.enc(Fraction(1, 2)), canon.enc(Fraction(1, 2))] if rng.random() < 0.6 else
-                        [canon.enc(Fraction(3, 4)), canon.enc(Fraction(1, 4))],
-                        # asymmetric variance tensor: entry (i, j, trait), perfect squares / 16
-                        vmat=[[[canon.enc(Fraction(rng.randint(0, 9) ** 2, 16)) for _ in range(t)] for _ in range(n)]
-                              for _ in range(n)])
-            nx = len(_xmap_py(n, 2, uniq))
+                        design=design, nparent=npar, epgc=[canon.enc(v) for v in epgc],
+                        vmat=tensor(npar) if design != "real3" else None)
+            nx = len(_xmap_py(n, npar, uniq))
+            if nx == 0:              # fewer taxa than parents with unique parents: allow selfs
+                case["unique_parents"] = uniq = False
+                nx = len(_xmap_py(n, npar, uniq))
             case["decn"] = decide(rng, case["enc"], nx)
         elif fac == "ohv":
             pop["phased"] = True
@@ -291,6 +305,13 @@ def _gen_case(rng, factory=None):
                         nhaploblk=rng.randint(nchr, max(nchr, min(3, len(pop["u"]) - 1))))
             nx = len(_xmap_py(n, 2, uniq))
             case["decn"] = decide(rng, case["enc"], nx)
+        elif fac == "gb":
+            pop["phased"] = True
+            nchr = len(set(pop["chrgrp"]))
+            nbest = rng.randint(1, n)
+            case.update(crit="GB", enc="subset", nhaploblk=rng.randint(nchr, max(nchr, min(3, len(pop["u"]) - 1))),
+                        nbest=nbest)
+            case["decn"] = rng.sample(range(n), rng.randint(nbest, n))
         elif fac == "opv":
             pop["phased"] = True
             nchr = len(set(pop["chrgrp"]))
@@ -355,6 +376,10 @@ def corpus():
         {"kind": "factory", "factory": "wgebvmat", "crit": "WGEBVMAT", "enc": "subset", "decn": [0], "pop": pop},
         {"kind": "factory", "factory": "embvmat", "crit": "EMBVMAT", "enc": "subset", "decn": [0], "pop": pop, "nrep": 2,
          "nprogeny": 3, "tmaxs": [[[1, 2], [3, 6]], [[5, 1], [9, 3]], [[-2, 0], [4, 8]]]},
+        # three-way usefulness criterion: real variance factory, genome contributions 1/2, 1/4, 1/4
+        {"kind": "factory", "factory": "uc", "crit": "UC", "enc": "real", "pop": pop, "unique_parents": False,
+         "via_xmap": False, "upper_percentile": "1/10", "design": "real3", "nparent": 3, "epgc": ["1/2", "1/4", "1/4"],
+         "vmat": None, "decn": ["1/2", 0, "1/4", 0, 0, "1/4", 0, 0, 0, 0]},
         {"kind": "factory", "factory": "embv", "crit": "EMBV", "enc": "subset", "pop": pop, "unique_parents": True,
          "nrep": 2, "tmaxs": [[[1, 2], [3, 6]], [[5, 1], [9, 3]], [[-2, 0], [4, 8]]], "decn": [2, 0]},
         {"kind": "factory", "factory": "bvmat", "crit": "EBV", "enc": "subset", "unscale": True,
@@ -387,6 +412,10 @@ def _patched(obj, name, new):
         yield
     finally:
         setattr(obj, name, old)
+
+
+def _tofloat(a):
+    return [_tofloat(v) for v in a] if isinstance(a, list) else _f(a)
 
 
 def _latent(p, enc, decn):
@@ -554,24 +583,42 @@ def run(case):
     if fac == "uc":
         from pybrops.model.vmat.fcty.GeneticVarianceMatrixFactory import GeneticVarianceMatrixFactory
         from pybrops.popgen.gmap.HaldaneMapFunction import HaldaneMapFunction
-        vm = numpy.array([[[_f(v) for v in c] for c in r] for r in case["vmat"]])
-        epgc = tuple(_f(v) for v in case["epgc"])
+        design = case.get("design", "stub2")
+        npar = case.get("nparent", 2)
         seen = {}
+        made = []
 
         class VObj:
             pass
+        if design == "real3":
+            from pybrops.model.vmat.fcty.DenseThreeWayDHAdditiveGeneticVarianceMatrixFactory import \
+                DenseThreeWayDHAdditiveGeneticVarianceMatrixFactory as Real3
 
-        class StubFcty(GeneticVarianceMatrixFactory):
-            def from_gmod(self, gmod, pgmat, ncross, nprogeny, nself, gmapfn, **kw):
-                seen.update(ncross=ncross, nprogeny=nprogeny, nself=nself, same_pgmat=pgmat is gmat, same_gmod=gmod is gpmod)
-                o = VObj()
-                o.mat = vm
-                o.epgc = epgc
-                return o
+            class Fcty(Real3):
+                def from_gmod(self, gmod, pgmat, ncross, nprogeny, nself, gmapfn, **kw):
+                    seen.update(ncross=ncross, nprogeny=nprogeny, nself=nself, same_pgmat=pgmat is gmat,
+                                same_gmod=gmod is gpmod)
+                    o = super().from_gmod(gmod=gmod, pgmat=pgmat, ncross=ncross, nprogeny=nprogeny, nself=nself,
+                                          gmapfn=gmapfn, **kw)
+                    made.append(o)
+                    return o
+        else:
+            vm = numpy.array(_tofloat(case["vmat"]))
+            epgc = tuple(_f(v) for v in case["epgc"])
+
+            class Fcty(GeneticVarianceMatrixFactory):
+                def from_gmod(self, gmod, pgmat, ncross, nprogeny, nself, gmapfn, **kw):
+                    seen.update(ncross=ncross, nprogeny=nprogeny, nself=nself, same_pgmat=pgmat is gmat,
+                                same_gmod=gmod is gpmod)
+                    o = VObj()
+                    o.mat = vm
+                    o.epgc = epgc
+                    made.append(o)
+                    return o
         uniq = case["unique_parents"]
-        xm = numpy.array(_xmap_py(n, 2, uniq), dtype="int64")
-        kw = dict(nparent=2, ncross=1, nprogeny=10, nself=0, upper_percentile=_f(case["upper_percentile"]),
-                  vmatfcty=StubFcty(), gmapfn=HaldaneMapFunction(), unique_parents=uniq, pgmat=gmat, gpmod=gpmod,
+        xm = numpy.array(_xmap_py(n, npar, uniq), dtype="int64")
+        kw = dict(nparent=npar, ncross=1, nprogeny=10, nself=0, upper_percentile=_f(case["upper_percentile"]),
+                  vmatfcty=Fcty(), gmapfn=HaldaneMapFunction(), unique_parents=uniq, pgmat=gmat, gpmod=gpmod,
                   **std_kwargs(enc, len(xm), k, t))
         if case["via_xmap"]:
             # a user-supplied cross map in a different order
@@ -581,13 +628,15 @@ def run(case):
             p = cls.from_pgmat_gpmod(**kw)
         import scipy.stats
         up = _f(case["upper_percentile"])
+        vobj = made[0]
         obs.update(ucmat=_enc(p.ucmat), xmap=canon.enc(numpy.asarray(p.decn_space_xmap).astype(int)), seen=seen,
                    intensity=canon.enc(float(scipy.stats.norm.pdf(scipy.stats.norm.ppf(1.0 - up)) / up)),
-                   xmap_given=canon.enc(xm.astype(int)))
+                   xmap_given=canon.enc(xm.astype(int)), epgc=_enc(numpy.array(vobj.epgc, dtype=float)),
+                   pvar=[_enc(numpy.asarray(vobj.mat)[tuple(int(v) for v in cc)]) for cc in xm])
         obs["latent"] = _latent(p, enc, decn)
         return obs
 
-    if fac in ("ohv", "opv"):
+    if fac in ("ohv", "opv", "gb"):
         mod = importlib.import_module(PKG + c05.CRITS[crit]["module"])
         bounds = []
         orig = mod.haplobin_bounds
@@ -603,6 +652,11 @@ def run(case):
                 p = cls.from_pgmat_gpmod(nparent=2, nhaploblk=case["nhaploblk"], unique_parents=uniq, pgmat=gmat,
                                          gpmod=gpmod, **std_kwargs(enc, nx, k, t))
                 obs.update(ohvmat=_enc(p.ohvmat), xmap=canon.enc(numpy.asarray(p.decn_space_xmap).astype(int)))
+            elif fac == "gb":
+                p = cls.from_pgmat_gpmod(pgmat=gmat, gpmod=gpmod, nhaploblk=case["nhaploblk"], nbestfndr=case["nbest"],
+                                         **std_kwargs(enc, n, k, t))
+                obs["haplomat"] = _enc(p.haplomat)
+                obs["nbest"] = int(p.nbestfndr)
             else:
                 p = cls.from_pgmat_gpmod(nhaploblk=case["nhaploblk"], pgmat=gmat, gpmod=gpmod, **std_kwargs(enc, n, k, t))
                 obs["haplomat"] = _enc(p.haplomat)
@@ -785,6 +839,8 @@ def requests(case, obs):
         cj = {"crit": crit.lower(), "geno": Zmat(pop), "ploidy": 2, "mkrwt": mk, "tfreq": tf}
         reqs.append(dict(_spec_req(case, cj, len(Zmat(pop))), reported=rep))
     elif fac == "cmat":
+        reqs.append({"op": "c05.kinship", "method": "mol" if case["cmatfcty"] == "molecular" else "vr",
+                     "X": Zmat(case["pop"]), "ploidy": 2})
         reqs.append({"op": "c05.spec_factor", "C": obs["C"], "K": obs["K"][0]})
         if crit == "OCS":
             exp = gebv_exact(case["pop"]) if case["unscale"] else obs["bv"]["mat"]
@@ -793,21 +849,29 @@ def requests(case, obs):
             cj = {"crit": crit.lower(), "C": obs["C"]}
         reqs.append(dict(_spec_req(case, cj, len(obs["C"])), reported=rep))
     elif fac == "l2_gmat":
+        for tr in range(len(obs["C"])):
+            reqs.append({"op": "c05.kinship", "method": "gw", "X": Zmat(case["pop"]), "ploidy": 2,
+                         "w": [r[tr] for r in case["mkrwt"]], "p": [r[tr] for r in case["afreq"]]})
         for Ct, K in zip(obs["C"], obs["K"]):
             reqs.append({"op": "c05.spec_factor", "C": Ct, "K": K})
         reqs.append(dict(_spec_req(case, {"crit": "l2", "C": obs["C"]}, len(obs["C"][0])), reported=rep))
     elif fac == "uc":
         pop = case["pop"]
         n = len(pop["geno"][0])
-        reqs.append({"op": "c05.xmap", "ntaxa": n, "nparent": 2, "unique_parents": case["unique_parents"]})
+        reqs.append({"op": "c05.xmap", "ntaxa": n, "nparent": case.get("nparent", 2),
+                     "unique_parents": case["unique_parents"]})
         xm = obs["xmap_given"]
-        pvar = [case["vmat"][a][b] for a, b in xm]
-        reqs.append({"op": "c05.uc", "epgc": case["epgc"], "bv": gebv_exact(pop), "intensity": obs["intensity"],
-                     "xmap": xm, "pvar": pvar})
-    elif fac in ("ohv", "opv"):
+        # the variance of each cross as the variance object holds it (C12's subject), its genome contributions
+        # from the case (stub) or from the real three-way factory
+        reqs.append({"op": "c05.uc", "epgc": obs["epgc"], "bv": gebv_exact(pop), "intensity": obs["intensity"],
+                     "xmap": xm, "pvar": obs["pvar"]})
+    elif fac in ("ohv", "opv", "gb"):
         pop = case["pop"]
         n = len(pop["geno"][0])
         reqs.append({"op": "c05.haplomat", "mat": pop["geno"], "u": pop["u"], "bounds": obs["bounds"]})
+        if fac == "gb" and _fin(obs["haplomat"]):
+            # composition: latentfn of the built problem against the definition on the problem's own tensor
+            reqs.append(dict(_spec_req(case, {"crit": "gb", "H": obs["haplomat"], "nbest": case["nbest"]}, n), reported=rep))
         if fac == "ohv":
             reqs.append({"op": "c05.xmap", "ntaxa": n, "nparent": 2, "unique_parents": case["unique_parents"]})
     elif fac == "embv":
@@ -953,9 +1017,29 @@ def judge(case, obs, answers):
         _spec_latent_verdict(answers[0], bad_spec, "latentfn after from_gmat_gpmod")
     elif fac in ("cmat", "l2_gmat"):
         nK = len(obs["K"])
-        for a in answers[:-1]:
+        nmod = 1 if fac == "cmat" else len(obs["C"])
+        Cs = [obs["C"]] if fac == "cmat" else obs["C"]
+        # (1) the independent K: computed by the C13 model (Model/Coancestry.lean) from the genotype counts.
+        #     apply_jitter may add at most maxjitter = 1e-6 to the diagonal of the coancestry matrix (0.5e-6 of K)
+        for tr, a in enumerate(answers[:nmod]):
+            r = _ok(a)
+            if "err" in r:
+                raise RuntimeError("C13 model rejects the population: " + str(r))
+            Km = r["K"]
+            Kc = obs["K"][tr] if tr < nK else None
+            if Kc is None or not _kin_close(Km, Kc):
+                bad_corr.append(f"kinship matrix (trait {tr}) C13-model={Km} factory={Kc}")
+            # C^T C against the model's K, entry by entry, within the jitter allowance
+            Ct = Cs[tr]
+            n_ = len(Km)
+            G = [[sum(Fraction(Ct[r_][i]) * Fraction(Ct[r_][j]) for r_ in range(len(Ct))) for j in range(n_)]
+                 for i in range(n_)] if _fin(Ct) else None
+            if G is None or not _kin_close(Km, [[canon.enc(v) for v in row] for row in G]):
+                bad_spec.append(f"kinship factor (trait {tr}): C^T C is not the kinship matrix of the population "
+                                f"(C13 model) {Km}")
+        for a in answers[nmod:-1]:
             if not _ok(a)["ok"]:
-                bad_spec.append("kinship factor: C^T C differs from the kinship matrix K of the population")
+                bad_spec.append("kinship factor: C^T C differs from the kinship matrix K handed to cholesky")
         if fac == "cmat" and nK != 1:
             bad_spec.append(f"{nK} coancestry matrices built")
         if fac == "cmat" and crit == "OCS":
@@ -969,27 +1053,40 @@ def judge(case, obs, answers):
             bad_corr.append(f"xmap model={xm_model} impl={obs['xmap']}")
         if obs["xmap"] != obs["xmap_given"]:
             bad_spec.append(f"decn_space_xmap {obs['xmap']} is not the cross map used {obs['xmap_given']}")
-        want_x = _xmap_py(len(case["pop"]["geno"][0]), 2, case["unique_parents"])
+        npar = case.get("nparent", 2)
+        want_x = _xmap_py(len(case["pop"]["geno"][0]), npar, case["unique_parents"])
         if not case["via_xmap"] and obs["xmap"] != want_x:
-            bad_spec.append(f"cross map {obs['xmap']} is not the list of all parent pairs {want_x}")
+            bad_spec.append(f"cross map {obs['xmap']} is not the list of all parent tuples {want_x}")
         m = _ok(answers[1])
         if not _close(m, obs["ucmat"]):
             bad_corr.append(f"ucmat model={m} impl={obs['ucmat']}")
-        # definition, exact: epgc . bv[parents] + intensity * sqrt(var[parents])
+        # definition: sum_p epgc_p * bv[parent_p] + intensity * sqrt(var[parents]); the genome contributions are
+        # the design's (1/2,1/2 | 3/4,1/4 | 1/2,1/4,1/4 | ...), not an equal split
+        if case.get("design") != "real3" and not _close(case["epgc"], obs["epgc"], 0, 0):
+            bad_spec.append(f"epgc {obs['epgc']} != {case['epgc']}")
+        if case.get("design") == "real3" and not _close(obs["epgc"], ["1/2", "1/4", "1/4"], 0, 0):
+            bad_spec.append(f"three-way design reports genome contributions {obs['epgc']}")
         bv = gebv_exact(case["pop"])
         inten = Fraction(obs["intensity"])
-        for row, (a, b) in zip(obs["ucmat"], obs["xmap"]):
+        for ci, (row, cc) in enumerate(zip(obs["ucmat"], obs["xmap"])):
             for j, v in enumerate(row):
-                var = Fraction(case["vmat"][a][b][j])
-                sd = Fraction(int(round((var * 16) ** 0.5)), 4)
-                want = Fraction(case["epgc"][0]) * Fraction(bv[a][j]) + Fraction(case["epgc"][1]) * Fraction(bv[b][j]) + inten * sd
+                if case.get("design") == "real3":
+                    var = Fraction(obs["pvar"][ci][j])
+                    sd = Fraction(float(var) ** 0.5)
+                else:
+                    cell = case["vmat"]
+                    for a in cc:
+                        cell = cell[a]
+                    var = Fraction(cell[j])
+                    sd = Fraction(int(round((var * 16) ** 0.5)), 4)
+                want = sum(Fraction(e) * Fraction(bv[a][j]) for e, a in zip(obs["epgc"], cc)) + inten * sd
                 if isinstance(canon.dec(v), str) or not canon.close(canon.dec(v), want, 1e-9, 1e-12):
-                    bad_spec.append(f"uc[{a},{b}][{j}] = {v}, definition gives {want}")
+                    bad_spec.append(f"uc{cc}[{j}] = {v}, definition gives {want}")
         s = obs["seen"]
         if not (s.get("same_pgmat") and s.get("same_gmod")):
             bad_spec.append(f"variance factory called with other objects {s}")
         _check_lookup(case, obs, obs["ucmat"], lat, bad_spec)
-    elif fac in ("ohv", "opv"):
+    elif fac in ("ohv", "opv", "gb"):
         H = _ok(answers[0])
         pop = case["pop"]
         if fac == "ohv":
@@ -1000,6 +1097,23 @@ def judge(case, obs, answers):
             if not _close(want, obs["ohvmat"]):
                 bad_spec.append(f"ohvmat {obs['ohvmat']} is not ploidy * sum of block maxima {want}")
             _check_lookup(case, obs, obs["ohvmat"], lat, bad_spec)
+        elif fac == "gb":
+            if not _close(H, obs["haplomat"]):
+                bad_corr.append(f"haplomat model={H} impl={obs['haplomat']}")
+            if obs["nbest"] != case["nbest"]:
+                bad_spec.append(f"nbestfndr {obs['nbest']} != {case['nbest']}")
+            _spec_latent_verdict(answers[1], bad_spec, "latentfn after from_pgmat_gpmod")
+            # definition on the *model's* tensor, exact: -(ploidy/nbest) * sum_b (sum of the nbest largest best phases)
+            nb = case["nbest"]
+            want = []
+            for j in range(len(H[0][0][0])):
+                tot = Fraction(0)
+                for b in range(len(H[0][0])):
+                    best = sorted((max(Fraction(H[ph][i][b][j]) for ph in range(len(H))) for i in case["decn"]), reverse=True)
+                    tot += sum(best[:nb])
+                want.append(canon.enc(-Fraction(len(H), nb) * tot))
+            if not _close(want, lat):
+                bad_spec.append(f"latent {lat} is not -(ploidy/nbest) * sum of the nbest best founders per block {want}")
         else:
             if not _close(H, obs["haplomat"]):
                 bad_corr.append(f"haplomat model={H} impl={obs['haplomat']}")
@@ -1066,6 +1180,23 @@ def judge(case, obs, answers):
 
     return {"corr": not bad_corr, "spec": not bad_spec, "nontrivial": True,
             "detail": f"factory[{fac}/{crit}/{enc}] " + ("; ".join(bad_spec + bad_corr)[:1500] if (bad_spec or bad_corr) else "ok")}
+
+
+def _kin_close(Km, Kc, jitter=5.1e-7):
+    """off-diagonal entries equal (1e-9), diagonal of the factory's matrix within [0, jitter] above the model's"""
+    if len(Km) != len(Kc) or not _fin(Kc):
+        return False
+    for i, (rm, rc) in enumerate(zip(Km, Kc)):
+        if len(rm) != len(rc):
+            return False
+        for j, (a, b) in enumerate(zip(rm, rc)):
+            a, b = Fraction(a), Fraction(b)
+            if i == j:
+                if not (-1e-9 <= float(b - a) <= jitter + 1e-9 * max(1.0, abs(float(a)))):
+                    return False
+            elif not canon.close(a, b, 1e-9, 1e-11):
+                return False
+    return True
 
 
 def _ohv_exact(H, xmap):
